@@ -114,10 +114,39 @@ def triple_harness(e):
     return {"triple": (i, j, k)}
 
 
+def _same_named_classes():
+    """Two distinct class objects with the same name and layout (defined twice in one module)."""
+    import sys
+    import types
+
+    mod = sys.modules.get("vgen_samename") or types.ModuleType("vgen_samename")
+    sys.modules["vgen_samename"] = mod
+    src = "from dataclasses import dataclass\nfrom models.zoo import VBase\n\n@dataclass(frozen=True)\nclass VSameName(VBase):\n    v: int = 0\n    kid: VBase | None = None\n"
+    out = []
+    for _ in range(2):
+        exec(compile(src, "vgen_samename", "exec"), mod.__dict__)
+        out.append(mod.__dict__["VSameName"])
+    return out
+
+
 def foreign_harness(e):
     from models.zoo import VSubLeaf
 
     reset_all()
+    if e.flag("same_named_classes"):
+        A, B = _same_named_classes()
+        from models.zoo import VLeaf, VMany
+
+        # only at the root: below the root two live classes with one name are indistinguishable by
+        # design (the digest carries the class name and the library admits one class per name)
+        where = e.pick(["root"], "where")
+        x = A(v=1, kid=VLeaf(v=2)) if where == "root" else VMany(items=(A(v=1),))
+        y = B(v=1, kid=VLeaf(v=2)) if where == "root" else VMany(items=(B(v=1),))
+        got = [x == y, y == x, not (x != y)]
+        if any(got):
+            e.fail("nodes-of-different-classes-with-one-name-compare-equal", scenario={"where": where, "eq": got})
+        e.distinct(("same-name", where))
+        return {"same_named_classes": where}
     x = build(R("VLeaf", {"v": 1}, e.pick([None, "a"], "origin")))
     other = e.pick(["None", "int", "str", "tuple", "subclass-instance", "other-class", "object"], "comparand")
     val = {"None": None, "int": 1, "str": "x", "tuple": (x,), "subclass-instance": VSubLeaf(v=1), "other-class": build(R("VNonCmp", {"v": 1})), "object": object()}[other]
